@@ -6,6 +6,7 @@ real class with `queue.Queue` and real threads for the partition clause only."""
 from __future__ import annotations
 
 import queue as _queue
+import pickle
 import random
 import threading
 
@@ -36,7 +37,23 @@ def gen_cases(tier, seed):
     return cases
 
 
-ENDS = [None, None, None, 'END', ('end', 0), -1]
+class EqMarker:
+    """A marker specified by value (as it would arrive through a process queue)."""
+
+    def __init__(self, v):
+        self.v = v
+
+    def __eq__(self, other):
+        return isinstance(other, EqMarker) and other.v == self.v
+
+    def __hash__(self):
+        return hash(self.v)
+
+    def __repr__(self):
+        return f'EqMarker({self.v!r})'
+
+
+ENDS = [None, None, None, 'END', ('end', 0), -1, 10 ** 20, EqMarker('stop')]
 FALSY = [0, False, '', (), 0.0]
 
 
@@ -87,7 +104,8 @@ def make_script(rng):
     else:
         gap = w * rng.uniform(1.1, 5)
     t += gap
-    arrivals.append((t, end))
+    # the marker is specified by value: through a process queue it arrives as an equal but distinct object
+    arrivals.append((t, pickle.loads(pickle.dumps(end)) if rng.random() < 0.6 else end))
     consumer = rng.choice(['fast', 'fast', 'slow', 'mixed'])
     return {'b': b, 'wait': wait, 'end': end, 'arrivals': arrivals, 'consumer': consumer}
 
@@ -249,7 +267,15 @@ def run_threads(S, case, rng):
         b = rng.choice([1, 2, 3, 5])
         wait = rng.choice([0, 0.001, 0.005, 0.02])
         n = rng.choice([0, 1, 5, 40, 200])
-        q = _queue.Queue(rng.choice([0, 1, 3]))
+        end = rng.choice([None, None, 'STOP', ('end', 0), EqMarker('stop')])
+        qkind = rng.choice(['thread', 'thread', 'process'])
+        if qkind == 'process':
+            import multiprocessing
+
+            n = min(n, 40)
+            q = multiprocessing.get_context('spawn').Queue()  # everything is pickled: the marker arrives as an equal, distinct object
+        else:
+            q = _queue.Queue(rng.choice([0, 1, 3]))
         items = [('x', i) for i in range(n)]
         pauses = [rng.choice([0, 0, 0, 0.0005, wait * 1.5]) for _ in range(n)]
 
@@ -260,14 +286,30 @@ def run_threads(S, case, rng):
                 if p:
                     time.sleep(p)
                 q.put(x)
-            q.put(None)
+            q.put(pickle.loads(pickle.dumps(end)))
 
         t = threading.Thread(target=produce, name='vf-producer')
         t.start()
         out = []
-        for batch in S.EagerBatcher(q, batch_size=b, batch_wait_time=wait):
-            out.append(list(batch))
+        kw = {} if end is None else {'endmarker': end}
+
+        def consume():
+            for batch in S.EagerBatcher(q, batch_size=b, batch_wait_time=wait, **kw):
+                out.append(list(batch))
+
+        from vlib import watch
+
+        try:
+            watch.run_bounded(consume, 30, 'EagerBatcher iteration')
+        except watch.Hang as h:
+            violations.append({'mech': 'eagerbatcher/iteration-never-ends', 'msg': f'real {qkind} queue, end marker {end!r}, b={b}: iteration did not end after the marker was put; '
+                               f'batches so far {out[-3:]!r}', 'stacks': h.stacks})
+            return {'violations': violations, 'obs': obs, 'sig': None, 'nontrivial': False, 'sample': None, 'exit_after': True}
         t.join()
+        if qkind == 'process':
+            q.close()
+            q.join_thread()
+            obs['process_queue_runs'] = obs.get('process_queue_runs', 0) + 1
         flat = [x for bt in out for x in bt]
         obs['thread_runs'] += 1
         obs['thread_items'] += n
